@@ -39,3 +39,8 @@ Print Assumptions C11_exactly_once.
 Print Assumptions C11_never_twice.
 Print Assumptions C11_not_early.
 Print Assumptions C11_break_leaks.
+
+(* non-vacuity (Proofs/ExampleFacts.v, by computation): a history over two buckets with a push, an extend that over-reports its length, a panicking fill, an extend that under-reports (assert), an extend that panics midway: 11 values, the drop log before and after the last handle goes away, every value dropped exactly once *)
+From NV Require Proofs.ExampleFacts.
+Definition C11_nonvacuous := ExampleFacts.C11Example.C11_nonvacuous.
+Print Assumptions C11_nonvacuous.
